@@ -89,7 +89,10 @@ def run_profile(ctx, prop, profile, nseq, nops, size, kinds=None, seed_off=0, sh
                 # keep the trace of a failing sequence for diagnosis (bounded: one directory, overwritten per profile/index)
                 kd = os.path.join(vlib.V, '.work', 'failed_traces')
                 os.makedirs(kd, exist_ok=True)
-                os.replace(r['trace'], os.path.join(kd, '%s_%s_%d.trace' % (prop, profile, r['index'])))
+                if os.path.getsize(r['trace']) <= 8 << 20 and len(os.listdir(kd)) < 40:
+                    os.replace(r['trace'], os.path.join(kd, '%s_%s_%d.trace' % (prop, profile, r['index'])))
+                else:
+                    os.remove(r['trace'])   # (disk space: large traces and long series are not kept)
             else:
                 os.remove(r['trace'])
         except OSError:
